@@ -182,18 +182,19 @@ Qed.
 Lemma wstep_err : forall w call e,
   g_err (w_g w) = Some e ->
   w_g (fst (wstep fixed w call)) = w_g w /\
-  (forall o ord, call = WCompile o ord -> wstep fixed w call = (w, OErr e)).
+  (forall o ord sord, call = WCompile o ord sord -> wstep fixed w call = (w, OErr e)).
 Proof.
   intros w call e H; destruct call; simpl; split; try (intros; discriminate).
   - rewrite (g_add_node_sticky _ _ _ _ _ _ _ H). reflexivity.
   - destruct (alist_get _ _); reflexivity.
   - reflexivity.
   - rewrite (g_add_edge_sticky _ _ _ _ _ _ _ H). reflexivity.
+  - destruct (alist_get _ _); reflexivity.
   - unfold w_compile. rewrite H. reflexivity.
-  - intros o' ord' E; inv E. unfold w_compile. rewrite H. reflexivity.
+  - intros o' ord' sord' E; inv E. unfold w_compile. rewrite H. reflexivity.
 Qed.
 
-Definition w_is_compile (c : wcall) : bool := match c with WCompile _ _ => true | _ => false end.
+Definition w_is_compile (c : wcall) : bool := match c with WCompile _ _ _ => true | _ => false end.
 
 Theorem workflow_first_error_sticks : forall w e cs,
   g_err (w_g w) = Some e ->
@@ -208,7 +209,7 @@ Proof.
     destruct (IH w1 H1') as [I1 I2].
     destruct (run_calls (wstep fixed) w1 cs) as [w2 os]; simpl in *.
     split; [congruence|]. constructor; [|assumption].
-    intros IC. destruct call; try discriminate. rewrite (H2 o0 ord eq_refl) in S. inv S. reflexivity.
+    intros IC. destruct call; try discriminate. rewrite (H2 o0 ord sord eq_refl) in S. inv S. reflexivity.
 Qed.
 
 (* ================================================================== B. frozen builders *)
@@ -469,11 +470,21 @@ Qed.
 Lemma compiled_core : forall g, g_compiled (core g) = g_compiled g.
 Proof. intros []; reflexivity. Qed.
 
-Lemma compiled_w_compile : forall w o ord, g_compiled (w_g w) = true ->
-  core (w_g (fst (w_compile fixed w o ord))) = core (w_g w) /\
-  g_compiled (w_g (fst (w_compile fixed w o ord))) = true.
+(* in a compiled workflow the static values stage changes nothing: a node with waiting
+   static values makes it fail at once, the others are skipped *)
+Lemma compiled_run_statics : forall order w, g_compiled (w_g w) = true ->
+  fst (run_statics fixed w order) = w.
 Proof.
-  intros w o ord C. unfold w_compile. destruct (g_err (w_g w)) eqn:E; [auto|].
+  induction order as [|k rest IH]; intros w C; simpl; [reflexivity|].
+  destruct (alist_get k (w_nodes w)) as [n|]; [|apply IH; assumption].
+  destruct (wn_static n); [apply IH; assumption|]. rewrite C. reflexivity.
+Qed.
+
+Lemma compiled_w_compile : forall w o ord sord, g_compiled (w_g w) = true ->
+  core (w_g (fst (w_compile fixed w o ord sord))) = core (w_g w) /\
+  g_compiled (w_g (fst (w_compile fixed w o ord sord))) = true.
+Proof.
+  intros w o ord sord C. unfold w_compile. destruct (g_err (w_g w)) eqn:E; [auto|].
   destruct (frozen_run_branches (w_branches w) w C) as [B1 [B2 B3]].
   destruct (run_branches fixed w (w_branches w)) as [w1 [out|]]; simpl in *; [auto|].
   specialize (B3 eq_refl).
@@ -483,9 +494,12 @@ Proof.
   destruct (run_nodes w1 (ord ++ map fst (w_nodes w1))) as [w2 [er|]]; simpl in *.
   - rewrite R, B3. auto.
   - assert (C2 : g_compiled (w_g w2) = true) by (rewrite R; assumption).
-    pose proof (compiled_compile (w_g w2) o C2) as K.
-    destruct (g_compile fixed (w_g w2) o) as [g' out]; simpl in *; subst g'.
-    rewrite R, B3. auto.
+    pose proof (compiled_run_statics (sord ++ map fst (w_nodes w2)) w2 C2) as S.
+    destruct (run_statics fixed w2 (sord ++ map fst (w_nodes w2))) as [w3 [er|]]; simpl in S; subst w3; simpl.
+    + rewrite R, B3. auto.
+    + pose proof (compiled_compile (w_g w2) o C2) as K.
+      destruct (g_compile fixed (w_g w2) o) as [g' out]; simpl in *; subst g'.
+      rewrite R, B3. auto.
 Qed.
 
 Lemma compiled_wstep : forall w call, g_compiled (w_g w) = true ->
@@ -499,6 +513,7 @@ Proof.
   - auto.
   - pose proof (frozen_add_edge (w_g w) from END_ false false fields (or_introl C)) as E.
     destruct (g_add_edge (w_g w) from END_ false false fields) as [g' o]; simpl in *; subst g'. auto.
+  - destruct (alist_get _ _); simpl; auto.
   - apply compiled_w_compile; assumption.
 Qed.
 
@@ -551,21 +566,22 @@ Proof.
   dif; [dif; discriminate|]. destruct (g_add_branch (w_g w) from ends true). apply IH.
 Qed.
 
-Lemma w_compile_ok_compiled : forall v w o ord w1 r,
-  w_compile v w o ord = (w1, OCompiled r) -> g_compiled (w_g w1) = true.
+Lemma w_compile_ok_compiled : forall v w o ord sord w1 r,
+  w_compile v w o ord sord = (w1, OCompiled r) -> g_compiled (w_g w1) = true.
 Proof.
-  intros v w o ord w1 r. unfold w_compile. destruct (g_err (w_g w)); [discriminate|].
+  intros v w o ord sord w1 r. unfold w_compile. destruct (g_err (w_g w)); [discriminate|].
   destruct (run_branches v w (w_branches w)) as [wa [out|]] eqn:B.
   - intros H; inv H. exfalso. eapply run_branches_not_runner; eassumption.
   - destruct (run_nodes wa _) as [wb [er|]]; [discriminate|].
-    destruct (g_compile v (w_g wb) o) as [g' out] eqn:G. intros H; inv H. simpl.
+    destruct (run_statics v wb _) as [wc [er|]]; [discriminate|].
+    destruct (g_compile v (w_g wc) o) as [g' out] eqn:G. intros H; inv H. simpl.
     eapply g_compile_ok_compiled; eassumption.
 Qed.
 
-Theorem workflow_runner_unaffected : forall w o ord w1 r cs,
-  wstep fixed w (WCompile o ord) = (w1, OCompiled r) ->
+Theorem workflow_runner_unaffected : forall w o ord sord w1 r cs,
+  wstep fixed w (WCompile o ord sord) = (w1, OCompiled r) ->
   runner_view (w_g (final (wstep fixed) w1 cs)) r = runner_view (w_g w1) r.
 Proof.
-  intros w o ord w1 r cs H. simpl in H. apply view_core. apply compiled_wrun.
+  intros w o ord sord w1 r cs H. simpl in H. apply view_core. apply compiled_wrun.
   eapply w_compile_ok_compiled; eassumption.
 Qed.
